@@ -43,7 +43,7 @@ var tokenViewProps = map[string]bool{"C01": true, "C02": true, "C04": true}
 var tokenViewFullEvery = 8
 
 // bounds for the large tiers
-var tokenViewMaxWorlds = 6400
+var tokenViewMaxWorlds = 3200
 var tokenViewPerFile = 64
 
 func tokenViewEnabled() bool {
